@@ -5,6 +5,11 @@ from a base pole in frequency, damping and 1-MAC, a far pole with a near twin, N
 ordmax), three tolerance triples, through gen.SC_apply and through the real SSIcov.run / pLSCF.run (the
 identified pole table is replaced by the enumerated one).  Every label of every table is compared with a
 brute-force reference labeller written from the property statement.
+
+SSIcov.run is also driven in its uncertainty call form (method cov_mm, calc_unc=True, nb > 1; route name
+"SSIcov.run+unc"): the enumerated pole table then comes with a designed table of frequency uncertainties (three
+bands) and hc['cov_max'] takes four levels (off, the default 0.2, two tighter ones), so that the covariance hard
+criterion removes none, some or all of the poles; the labels are judged against the tables that run() returns.
 """
 import numpy as np
 
@@ -15,7 +20,8 @@ from mc.core import Tally
 ID = "C10"
 TECHNIQUE = ("bounded-exhaustive enumeration of pole tables over a symbolic pole catalogue x ordmin/ordmax x tolerance "
              "triples, every label compared with a brute-force reference labeller written from the statement; routes "
-             "gen.SC_apply and result.Lab of the real SSIcov.run / pLSCF.run under designed pole populations")
+             "gen.SC_apply and result.Lab of the real SSIcov.run / pLSCF.run under designed pole populations, SSIcov.run also "
+             "with calc_unc=True under designed uncertainty tables x levels of hc['cov_max'] (none / some / all poles removed)")
 LEVEL_TEXT = ("small-scope exhaustive: every table of the stated shapes over the stated catalogue is executed and every "
               "cell's label is judged; nothing is sampled")
 RULE = ("a case is one pole table, executed over its whole (ordmin, ordmax, tolerance triple) grid; non-trivial = under at "
@@ -33,6 +39,13 @@ ASSUMPTIONS = [
     "run() routes: hard criteria are switched to their most permissive values; cells designed as rejected carry a pole with "
     "negative damping, which every setting of the damping criterion removes; labels are judged against the tables run() returns",
     "model-order step is 1",
+    "SSIcov.run+unc (calc_unc=True, method cov_mm, nb in {2, 3, 4}): the Hankel matrix, its uncertainty and the state matrices "
+    "are really computed on the tiny record, the pole table and its uncertainty tables handed to the hard criteria are the "
+    "designed ones; the frequency uncertainty of cell (r, c) under design d lies in band (r + c + d) mod 3 of "
+    "(1e-4, 1e-2, 1) x [0.5, 2), cov_max takes the levels 1e12 (removes nothing), 0.2 (the default: removes band 2), 1e-3 "
+    "(removes bands 1 and 2) and 1e-6 (removes everything); which poles a level removes is known from the designed table "
+    "(ground truth), never read from the library's output; (ordmin, tolerance triple) rotate with (design, level) so that "
+    "every ordmin class and every triple occurs",
 ]
 
 SYMS = ["b", "f05", "f3", "x2", "x50", "m01", "m5", "far", "fartwin", "nan"]
@@ -47,6 +60,13 @@ SUB2 = [SYMS.index(s) for s in ("b", "nan")]
 DECOY = [SYMS.index(s) for s in ("b", "far", "nan", "f3")]
 NCOMP = 3
 ROUTES = ("SC_apply", "SSIcov.run", "pLSCF.run")
+UNC = "SSIcov.run+unc"          # SSIcov.run with calc_unc=True: the covariance hard criterion is live
+ALL_ROUTES = ROUTES + (UNC,)
+COV_BANDS = (1e-4, 1e-2, 1.0)   # designed frequency uncertainty of cell (r, c) under design d: band (r + c + d) % 3, x [0.5, 2)
+COV_MAX = (1e12, 0.2, 1e-3, 1e-6)
+COV_MAX_NAMES = ("off", "default", "tight", "rejects-all")
+# (design, cov_max level): off and rejects-all once, the two binding levels under every design
+UNC_GRID = [(0, 0)] + [(d, L) for L in (1, 2) for d in (0, 1, 2)] + [(0, 3)]
 
 _SEED = 0
 _CAT = {}
@@ -72,6 +92,23 @@ def catalogue(seed):
     scales = payload.cplx(seed, "c10/scale", (4, 41), lo=0.5, hi=2.0)
     _CAT[seed] = ([cat[s] for s in SYMS], scales)
     return _CAT[seed]
+
+
+def cov_tables(seed, raw_fn, d):
+    """Designed (Fn_cov, Xi_cov, Phi_cov) for a raw pole table under design d: NaN where the raw table has no pole."""
+    key = ("cov", seed)
+    if key not in _CAT:
+        _CAT[key] = (payload.uniform(seed, "c10/covf", 4 * 41, 0.5, 2.0).reshape(4, 41),
+                     payload.uniform(seed, "c10/covx", 4 * 41, 0.5, 2.0).reshape(4, 41),
+                     payload.uniform(seed, "c10/covp", 4 * 41 * NCOMP, 0.5, 2.0).reshape(4, 41, NCOMP))
+    ff, fx, fp = _CAT[key]
+    R, C = raw_fn.shape
+    band = np.array([[COV_BANDS[(r + c + d) % 3] for c in range(C)] for r in range(R)])
+    there = ~np.isnan(raw_fn)
+    Fc = np.where(there, band * ff[:R, :C], np.nan)
+    Xc = np.where(there, band * fx[:R, :C], np.nan)
+    Pc = np.where(there[:, :, None], band[:, :, None] * fp[:R, :C, :], np.nan)
+    return Fc, Xc, Pc
 
 
 # ---- spaces -------------------------------------------------------------------------------------
@@ -152,6 +189,9 @@ def params_for(sp, route, tier):
     kind = sp[0]
     C = 3 if kind in ("A", "B") else sp[1]
     last = C - 1
+    if route == UNC:           # (ordmin, ordmax, tol index, design, cov_max level)
+        oms = (0, 1, 2) if kind in ("A", "B") else (0, C // 2, last)
+        return [(oms[(d + L) % 3], last, (d + 2 * L) % 3, d, L) for d, L in UNC_GRID]
     if kind == "D":
         if route == "SC_apply":
             return [(om, last, 0) for om in sorted({0, 1, C // 2, last})] + [(0, last, 1), (0, last, 2)]
@@ -310,6 +350,55 @@ def run_ssicov(seed, raw, ordmin, tol, alg=None):
     return alg, res
 
 
+_COV = {}
+
+
+def _fake_ssi_poles_unc(*a, **k):
+    """Stand-in for ssi.SSI_poles that also hands out the designed uncertainty tables when run() asks for them."""
+    r = H._RAW["ssi"]
+    if k.get("calc_unc"):
+        c = _COV["ssi"]
+        return r[0].copy(), r[1].copy(), r[2].copy(), r[3].copy(), c[0].copy(), c[1].copy(), c[2].copy()
+    return r[0].copy(), r[1].copy(), r[2].copy(), r[3].copy(), None, None, None
+
+
+class designed_ssi_unc:
+    """Inside: every SSI run() receives the tables stored by H.set_raw('ssi', ...) and _COV['ssi']."""
+
+    def __enter__(self):
+        import pyoma2.algorithms.ssi as alg_ssi
+
+        self.mod = alg_ssi.ssi
+        self.orig = self.mod.SSI_poles
+        self.mod.SSI_poles = _fake_ssi_poles_unc
+        return self
+
+    def __exit__(self, *exc):
+        self.mod.SSI_poles = self.orig
+        return False
+
+
+def run_ssicov_unc(seed, raw, cov, ordmin, tol, d, L, alg=None):
+    from pyoma2.algorithms.ssi import SSIcov
+
+    C = raw[0].shape[1]
+    n, br = ssi_setup(C)
+    H.set_raw("ssi", *raw)
+    _COV["ssi"] = cov
+    sc = sc_dict(tol, ordmin + C + d + L + int(round(1e3 * tol[0])))
+    hc = dict(H.HC_OFF_SSI)
+    hc["cov_max"] = COV_MAX[L]
+    nb = 2 + d
+    if alg is None:
+        alg = SSIcov(name="c10", br=br, ordmax=C - 1, ordmin=ordmin, step=1, sc=sc, hc=hc, method="cov_mm", calc_unc=True, nb=nb)
+        alg._set_data(H.tiny_data(seed, n), 100.0)
+    else:
+        rp = alg.run_params
+        rp.br, rp.ordmax, rp.ordmin, rp.sc, rp.hc, rp.method, rp.calc_unc, rp.nb = br, C - 1, ordmin, sc, hc, "cov_mm", True, nb
+    res = alg.run()
+    return alg, res
+
+
 def plscf_setup(C):
     nx = 8 if C <= 4 else 4 * C
     return max(24, 3 * nx), nx
@@ -337,11 +426,13 @@ def same_tables(a, b):
 
 def one_case(t, seed, sp, idx, route, prm, state=None, count=True):
     """Execute and judge one (table, route, ordmin, ordmax, tolerance). Returns (labels bytes or None, nontrivial)."""
-    ordmin, ordmax, ti = prm
+    ordmin, ordmax, ti = prm[:3]
     tol = TOLS[ti]
     tab = symbol_table(sp, idx)
     case = {"space": list(sp), "index": int(idx), "route": route, "ordmin": ordmin, "ordmax": ordmax, "tol": ti, "seed": seed,
             "symbols": [[SYMS[x] for x in row] for row in tab.tolist()] if tab.shape[1] <= 8 else "banded"}
+    if route == UNC:
+        case["cov_design"], case["cov_level"], case["cov_max"] = prm[3], prm[4], COV_MAX[prm[4]]
     t.evaluations += 1
     if route == "SC_apply":
         Fn, Xi, Phi = numeric_table(seed, tab)
@@ -356,8 +447,32 @@ def one_case(t, seed, sp, idx, route, prm, state=None, count=True):
     designed = numeric_table(seed, tab)
     raw = numeric_table(seed, tab, neg_for_nan=True)
     alg = state.get(route) if state is not None else None
+    if route == UNC:
+        # ground truth of the covariance criterion: a pole stays when its designed frequency uncertainty is below cov_max
+        d, L = prm[3], prm[4]
+        cov = cov_tables(seed, raw[0], d)
+        rejected = ~np.isnan(designed[0]) & ~(cov[0] < COV_MAX[L])
+        unfiltered = designed
+        designed = (np.where(rejected, np.nan, designed[0]), np.where(rejected, np.nan, designed[1]),
+                    np.where(rejected[:, :, None], np.nan, designed[2]))
+        if count:
+            n_ret, n_rej = int((~np.isnan(unfiltered[0])).sum()), int(rejected.sum())
+            t.outcomes[f"{route}:cov_max-" + ("table-has-no-pole" if n_ret == 0 else "removes-no-pole" if n_rej == 0 else
+                                              "removes-every-pole" if n_rej == n_ret else "removes-some-poles-keeps-others")] += 1
+            t.outcomes[f"{route}:cov_max-level-{COV_MAX_NAMES[L]}"] += 1
+            if 0 < n_rej:
+                e0 = reference(unfiltered[0], unfiltered[1], unfiltered[2], ordmin, ordmax, tol)[0]
+                e1 = reference(designed[0], designed[1], designed[2], ordmin, ordmax, tol)[0]
+                lost = rejected & (e0 == 1)
+                moved = ~rejected & (e0 != e1) & (e0 != -1) & (e1 != -1)
+                if lost.any():
+                    t.outcomes[f"{route}:cov_max-removes-a-pole-that-the-soft-criteria-alone-would-label-stable"] += 1
+                if moved.any():
+                    t.outcomes[f"{route}:cov_max-changes-the-label-of-a-surviving-pole(its-previous-order-lost-poles)"] += 1
     try:
-        if route == "SSIcov.run":
+        if route == UNC:
+            alg, res = run_ssicov_unc(seed, raw, cov, ordmin, tol, d, L, alg)
+        elif route == "SSIcov.run":
             alg, res = run_ssicov(seed, raw, ordmin, tol, alg)
         else:
             alg, res = run_plscf(seed, raw, ordmin, tol, alg)
@@ -399,6 +514,8 @@ def work(item):
     ctxs = []
     if route == "SSIcov.run":
         ctxs.append(H.designed_ssi())
+    elif route == UNC:
+        ctxs.append(designed_ssi_unc())
     elif route == "pLSCF.run":
         ctxs.append(H.designed_plscf())
     for cm in ctxs:
@@ -452,9 +569,10 @@ def plan(tier):
         return [
             (("A", 3, False), ("SC_apply",), 250),
             (("A", 2, True), ("SC_apply",), 100),
-            (("A", 2, False), ("SSIcov.run", "pLSCF.run"), 50),
+            (("A", 2, False), ("SSIcov.run", "pLSCF.run", UNC), 50),
             (("B", SUB5), ("SC_apply",), 400),
-            (("B", SUB3B), ("SSIcov.run", "pLSCF.run"), 81),
+            (("B", SUB3B), ("SSIcov.run", "pLSCF.run", UNC), 81),
+            (("D", 8, SUB3), (UNC,), 9),
             (("D", 8, SUB5), ("SC_apply",), 25),
             (("D", 41, SUB5), ("SC_apply",), 15),
             (("D", 41, SUB3), ("SSIcov.run",), 9),
@@ -463,11 +581,12 @@ def plan(tier):
     return [
         (("A", 4, False), ("SC_apply",), 1000),
         (("A", 3, True), ("SC_apply",), 250),
-        (("A", 3, False), ("SSIcov.run", "pLSCF.run"), 100),
-        (("A", 2, True), ROUTES, 100),
+        (("A", 3, False), ("SSIcov.run", "pLSCF.run", UNC), 100),
+        (("A", 2, True), ALL_ROUTES, 100),
         (("B", list(range(len(SYMS)))), ("SC_apply",), 2000),
-        (("B", SUB5), ("SSIcov.run", "pLSCF.run"), 125),
-        (("D", 8, SUB5), ROUTES, 25),
+        (("B", SUB5), ("SSIcov.run", "pLSCF.run", UNC), 125),
+        (("D", 8, SUB3), (UNC,), 9),
+        (("D", 8, SUB5), ALL_ROUTES, 25),
         (("D", 20, SUB5), ("SC_apply",), 15),
         (("D", 41, SUB5), ROUTES, 5),
     ]
@@ -475,7 +594,12 @@ def plan(tier):
 
 def explore(ctx):
     items = []
-    bounds = {"catalogue": SYMS, "tolerance_triples": dict(zip(TOL_NAMES, TOLS)), "shape_components": NCOMP, "spaces": []}
+    bounds = {"catalogue": SYMS, "tolerance_triples": dict(zip(TOL_NAMES, TOLS)), "shape_components": NCOMP,
+              "calc_unc_axis": {"route": UNC, "call_form": "SSIcov(method='cov_mm', calc_unc=True, nb=2+design)",
+                                "frequency_uncertainty_bands": list(COV_BANDS), "band_of_cell": "(row + column + design) mod 3",
+                                "cov_max_levels": dict(zip(COV_MAX_NAMES, COV_MAX)),
+                                "design_x_level_grid": [list(g) for g in UNC_GRID]},
+              "spaces": []}
     for sp, routes, step in plan(ctx.tier):
         n = space_size(sp)
         code = space_code(sp)
@@ -488,7 +612,7 @@ def explore(ctx):
     ctx.bounds = bounds
     warm(ctx.seed)
     # heaviest first for load balance; results are merged order-independently (counts only)
-    items.sort(key=lambda it: (0 if it[2] == "pLSCF.run" else 1 if it[2] == "SSIcov.run" else 2, -(it[0][1] if it[0][0] == "D" else 0)))
+    items.sort(key=lambda it: (0 if it[2] == "pLSCF.run" else 1 if it[2] in ("SSIcov.run", UNC) else 2, -(it[0][1] if it[0][0] == "D" else 0)))
     ctx.pmap(work, items, chunksize=1)
     req = []
     for r in ROUTES:
@@ -496,6 +620,14 @@ def explore(ctx):
                 f"{r}:previous-order-empty", f"{r}:first-order", f"{r}:outside-order-range", f"{r}:tie-either",
                 f"{r}:same-labels-in-another-call-order"]
     req += ["SSIcov.run:filtered-table-is-the-designed-one", "pLSCF.run:filtered-table-is-the-designed-one"]
+    # the uncertainty call form: the covariance criterion was off, binding and total, and binding in the two ways that matter
+    req += [f"{UNC}:{o}" for o in (
+        "stable", "unstable:fn", "unstable:xi", "unstable:mac", "unstable:several", "nan-cell", "previous-order-empty", "first-order",
+        "outside-order-range", "tie-either", "same-labels-in-another-call-order", "filtered-table-is-the-designed-one",
+        "cov_max-removes-no-pole", "cov_max-removes-some-poles-keeps-others", "cov_max-removes-every-pole",
+        "cov_max-removes-a-pole-that-the-soft-criteria-alone-would-label-stable",
+        "cov_max-changes-the-label-of-a-surviving-pole(its-previous-order-lost-poles)")]
+    req += [f"{UNC}:cov_max-level-{nm}" for nm in COV_MAX_NAMES]
     ctx.require(*req)
 
 
@@ -504,6 +636,7 @@ def warm(seed):
     work((("A", 2, True), 0, "SC_apply", 0, 1, "quick", seed))
     work((("A", 2, True), 0, "SSIcov.run", 0, 1, "quick", seed))
     work((("A", 2, True), 0, "pLSCF.run", 0, 1, "quick", seed))
+    work((("A", 2, True), 0, UNC, 0, 1, "quick", seed))
 
 
 def describe(sp):
@@ -523,7 +656,10 @@ def replay(case):
         lo, hi = case["purity_slice"]
         return work((sp, space_code(sp), route, lo, hi, "quick", case["seed"]))
     prm = (case["ordmin"], case["ordmax"], case["tol"])
-    cms = [H.designed_ssi()] if route == "SSIcov.run" else [H.designed_plscf()] if route == "pLSCF.run" else []
+    if route == UNC:
+        prm += (case["cov_design"], case["cov_level"])
+    cms = ([H.designed_ssi()] if route == "SSIcov.run" else [designed_ssi_unc()] if route == UNC else
+           [H.designed_plscf()] if route == "pLSCF.run" else [])
     for cm in cms:
         cm.__enter__()
     try:
